@@ -17,7 +17,9 @@ from datetime import datetime
 import xmltodict
 from dateutil.parser import parse
 
-from .utils.xml import remove_node, replace_node, insert_node, find_child, append_node
+from .utils.xml import (
+    remove_node, replace_node, insert_node, find_child, find_child_by_id, append_node
+)
 from .utils import s3
 from .moselements import Story, Item
 from .exc import (
@@ -549,7 +551,7 @@ class StoryDelete(MosFile):
         Merge into the :class:`RunningOrder` object provided.
         """
         for story in self.stories:
-            found_node, found_index = find_child(parent=ro.base_tag, child_tag='story', id=story.id)
+            found_node, found_index = find_child_by_id(parent=ro.base_tag, child_tag='story', id=story.id)
             if found_node is not None:
                 remove_node(parent=ro.base_tag, node=found_node)
             else:
@@ -611,13 +613,13 @@ class ItemDelete(MosFile):
         """
         Merge into the :class:`RunningOrder` object provided.
         """
-        story, story_index = find_child(parent=ro.base_tag, child_tag='story', id=self.story.id)
+        story, story_index = find_child_by_id(parent=ro.base_tag, child_tag='story', id=self.story.id)
         if story is None:
             raise MosMergeError(
                 f"{self.__class__.__name__} error in {self.message_id} - story not found"
             )
         for item in self.items:
-            found_node, found_index = find_child(parent=story, child_tag='item', id=item.id)
+            found_node, found_index = find_child_by_id(parent=story, child_tag='item', id=item.id)
             if found_node is None:
                 msg = f"{self.__class__.__name__} error in {self.message_id} - item not found"
                 logger.warning(msg)
@@ -681,7 +683,7 @@ class StoryInsert(MosFile):
         """
         Merge into the :class:`RunningOrder` object provided.
         """
-        story, story_index = find_child(parent=ro.base_tag, child_tag='story', id=self.target_story.id)
+        story, story_index = find_child_by_id(parent=ro.base_tag, child_tag='story', id=self.target_story.id)
         if story_index is None:
             raise MosMergeError(
                 f"{self.__class__.__name__} error in {self.message_id} - target story not found"
@@ -761,7 +763,7 @@ class ItemInsert(MosFile):
         """
         Merge into the :class:`RunningOrder` object provided.
         """
-        story, story_index = find_child(parent=ro.base_tag, child_tag='story', id=self.story.id)
+        story, story_index = find_child_by_id(parent=ro.base_tag, child_tag='story', id=self.story.id)
         if story is None:
             raise MosMergeError(
                 f"{self.__class__.__name__} error in {self.message_id} - target story not found"
@@ -770,7 +772,7 @@ class ItemInsert(MosFile):
             # move to the end
             item_index = len(story)
         else:
-            target_item, item_index = find_child(parent=story, child_tag='item', id=self.item.id)
+            target_item, item_index = find_child_by_id(parent=story, child_tag='item', id=self.item.id)
             if target_item is None:
                 raise MosMergeError(
                     f"{self.__class__.__name__} error in {self.message_id} - target item not found"
@@ -845,12 +847,12 @@ class StoryMove(MosFile):
         if self.target_story is None:
             target_story_index = len(ro.base_tag)
         else:
-            target_story, target_story_index = find_child(parent=ro.base_tag, child_tag='story', id=self.target_story.id)
+            target_story, target_story_index = find_child_by_id(parent=ro.base_tag, child_tag='story', id=self.target_story.id)
             if target_story is None:
                 raise MosMergeError(
                     f"{self.__class__.__name__} error in {self.message_id} - target story not found"
                 )
-        source_story, source_index = find_child(parent=ro.base_tag, child_tag='story', id=self.source_story.id)
+        source_story, source_index = find_child_by_id(parent=ro.base_tag, child_tag='story', id=self.source_story.id)
         if source_story is None:
             raise MosMergeError(
                 f"{self.__class__.__name__} error in {self.message_id} - source story not found"
@@ -937,7 +939,7 @@ class ItemMoveMultiple(MosFile):
             raise MosMergeError(
                 f"{self.__class__.__name__} error in {self.message_id} - no story given"
             )
-        story, story_index = find_child(parent=ro.base_tag, child_tag='story', id=self.story.id)
+        story, story_index = find_child_by_id(parent=ro.base_tag, child_tag='story', id=self.story.id)
         if story is None:
             raise MosMergeError(
                 f"{self.__class__.__name__} error in {self.message_id} - story not found"
@@ -946,14 +948,14 @@ class ItemMoveMultiple(MosFile):
         if self.item is None:
             target_item_index = len(story)
         else:
-            target_item, target_item_index = find_child(parent=story, child_tag='item', id=self.item.id)
+            target_item, target_item_index = find_child_by_id(parent=story, child_tag='item', id=self.item.id)
             if target_item is None:
                 raise MosMergeError(
                     f"{self.__class__.__name__} error in {self.message_id} - target item not found"
                 )
 
         for i, item in enumerate(self.items, start=target_item_index):
-            source_item, source_item_index = find_child(parent=story, child_tag='item', id=item.id)
+            source_item, source_item_index = find_child_by_id(parent=story, child_tag='item', id=item.id)
             if source_item_index is None:
                 raise MosMergeError(
                     f"{self.__class__.__name__} error in {self.message_id} - source item not found"
@@ -1018,7 +1020,7 @@ class StoryReplace(MosFile):
         """
         Merge into the :class:`RunningOrder` object provided.
         """
-        story, story_index = find_child(parent=ro.base_tag, child_tag='story', id=self.story.id)
+        story, story_index = find_child_by_id(parent=ro.base_tag, child_tag='story', id=self.story.id)
         if story is None:
             raise MosMergeError(
                 f"{self.__class__.__name__} error in {self.message_id} - target story not found"
@@ -1094,13 +1096,13 @@ class ItemReplace(MosFile):
         """
         Merge into the :class:`RunningOrder` object provided.
         """
-        story, story_index = find_child(parent=ro.base_tag, child_tag='story', id=self.story.id)
+        story, story_index = find_child_by_id(parent=ro.base_tag, child_tag='story', id=self.story.id)
         if story is None:
             raise MosMergeError(
                 f"{self.__class__.__name__} error in {self.message_id} - story not found"
             )
 
-        item, item_index = find_child(parent=story, child_tag='item', id=self.item.id)
+        item, item_index = find_child_by_id(parent=story, child_tag='item', id=self.item.id)
         if item is None:
             raise MosMergeError(
                 f"{self.__class__.__name__} error in {self.message_id} - item not found"
@@ -1336,7 +1338,7 @@ class EAStoryReplace(ElementAction):
         """
         Merge into the :class:`RunningOrder` object provided.
         """
-        story, story_index = find_child(parent=ro.base_tag, child_tag='story', id=self.story.id)
+        story, story_index = find_child_by_id(parent=ro.base_tag, child_tag='story', id=self.story.id)
         if story is None:
             raise MosMergeError(
                 f"{self.__class__.__name__} error in {self.message_id} - story not found"
@@ -1402,12 +1404,12 @@ class EAItemReplace(ElementAction):
         """
         Merge into the :class:`RunningOrder` object provided.
         """
-        story, story_index = find_child(parent=ro.base_tag, child_tag='story', id=self.story.id)
+        story, story_index = find_child_by_id(parent=ro.base_tag, child_tag='story', id=self.story.id)
         if story is None:
             raise MosMergeError(
                 f"{self.__class__.__name__} error in {self.message_id} - story not found"
             )
-        item, item_index = find_child(parent=story, child_tag='item', id=self.item.id)
+        item, item_index = find_child_by_id(parent=story, child_tag='item', id=self.item.id)
         if item is None:
             raise MosMergeError(
                 f"{self.__class__.__name__} error in {self.message_id} - item not found"
@@ -1462,7 +1464,7 @@ class EAStoryDelete(ElementAction):
         Merge into the :class:`RunningOrder` object provided.
         """
         for source_story in self.stories:
-            story, story_index = find_child(parent=ro.base_tag, child_tag='story', id=source_story.id)
+            story, story_index = find_child_by_id(parent=ro.base_tag, child_tag='story', id=source_story.id)
             if story is None:
                 msg = f"{self.__class__.__name__} error in {self.message_id} - story not found"
                 logger.warning(msg)
@@ -1521,7 +1523,7 @@ class EAItemDelete(ElementAction):
         """
         Merge into the :class:`RunningOrder` object provided.
         """
-        story, story_index = find_child(parent=ro.base_tag, child_tag='story', id=self.story.id)
+        story, story_index = find_child_by_id(parent=ro.base_tag, child_tag='story', id=self.story.id)
         if story is None:
             msg = f"{self.__class__.__name__} error in {self.message_id} - story not found"
             logger.warning(msg)
@@ -1529,7 +1531,7 @@ class EAItemDelete(ElementAction):
             return ro
 
         for source_item in self.items:
-            item, item_index = find_child(parent=story, child_tag='item', id=source_item.id)
+            item, item_index = find_child_by_id(parent=story, child_tag='item', id=source_item.id)
             if item is None:
                 msg = f"{self.__class__.__name__} error in {self.message_id} - item not found"
                 logger.warning(msg)
@@ -1592,7 +1594,7 @@ class EAStoryInsert(ElementAction):
             # insert at the end
             story_index = len(ro.base_tag)
         else:
-            story, story_index = find_child(parent=ro.base_tag, child_tag='story', id=self.story.id)
+            story, story_index = find_child_by_id(parent=ro.base_tag, child_tag='story', id=self.story.id)
             if story is None:
                 raise MosMergeError(
                     f"{self.__class__.__name__} error in {self.message_id} - target story not found"
@@ -1665,7 +1667,7 @@ class EAItemInsert(ElementAction):
         """
         Merge into the :class:`RunningOrder` object provided.
         """
-        story, story_index = find_child(parent=ro.base_tag, child_tag='story', id=self.story.id)
+        story, story_index = find_child_by_id(parent=ro.base_tag, child_tag='story', id=self.story.id)
         if story is None:
             raise MosMergeError(
                 f"{self.__class__.__name__} error in {self.message_id} - story not found"
@@ -1674,7 +1676,7 @@ class EAItemInsert(ElementAction):
             # move to bottom
             item_index = len(story)
         else:
-            item, item_index = find_child(parent=story, child_tag='item', id=self.item.id)
+            item, item_index = find_child_by_id(parent=story, child_tag='item', id=self.item.id)
             if item is None:
                 raise MosMergeError(
                     f"{self.__class__.__name__} error in {self.message_id} - item not found"
@@ -1731,12 +1733,12 @@ class EAStorySwap(ElementAction):
         Merge into the :class:`RunningOrder` object provided.
         """
         source_story_1, source_story_2 = self.stories
-        story1, story1_index = find_child(parent=ro.base_tag, child_tag='story', id=source_story_1.id)
+        story1, story1_index = find_child_by_id(parent=ro.base_tag, child_tag='story', id=source_story_1.id)
         if story1 is None:
             raise MosMergeError(
                 f"{self.__class__.__name__} error in {self.message_id} - story 1 not found"
             )
-        story2, story2_index = find_child(parent=ro.base_tag, child_tag='story', id=source_story_2.id)
+        story2, story2_index = find_child_by_id(parent=ro.base_tag, child_tag='story', id=source_story_2.id)
         if story2 is None:
             raise MosMergeError(
                 f"{self.__class__.__name__} error in {self.message_id} - story 2 not found"
@@ -1798,18 +1800,18 @@ class EAItemSwap(ElementAction):
         """
         Merge into the :class:`RunningOrder` object provided.
         """
-        story, story_index = find_child(parent=ro.base_tag, child_tag='story', id=self.story.id)
+        story, story_index = find_child_by_id(parent=ro.base_tag, child_tag='story', id=self.story.id)
         if story is None:
             raise MosMergeError(
                 f"{self.__class__.__name__} error in {self.message_id} - story not found"
             )
         source_item_1, source_item_2 = self.items
-        item1, item1_index = find_child(parent=story, child_tag='item', id=source_item_1.id)
+        item1, item1_index = find_child_by_id(parent=story, child_tag='item', id=source_item_1.id)
         if item1 is None:
             raise MosMergeError(
                 f"{self.__class__.__name__} error in {self.message_id} - item 1 not found"
             )
-        item2, item2_index = find_child(parent=story, child_tag='item', id=source_item_2.id)
+        item2, item2_index = find_child_by_id(parent=story, child_tag='item', id=source_item_2.id)
         if item2 is None:
             raise MosMergeError(
                 f"{self.__class__.__name__} error in {self.message_id} - item 2 not found"
@@ -1875,14 +1877,14 @@ class EAStoryMove(ElementAction):
         if self.story is None:
             target_story_index = len(ro.base_tag)
         else:
-            target_story, target_story_index = find_child(parent=ro.base_tag, child_tag='story', id=self.story.id)
+            target_story, target_story_index = find_child_by_id(parent=ro.base_tag, child_tag='story', id=self.story.id)
             if target_story is None:
                 raise MosMergeError(
                     f"{self.__class__.__name__} error in {self.message_id} - target story not found"
                 )
 
         for source_story in self.stories:
-            story, source_index = find_child(parent=ro.base_tag, child_tag='story', id=source_story.id)
+            story, source_index = find_child_by_id(parent=ro.base_tag, child_tag='story', id=source_story.id)
             if story is None:
                 raise MosMergeError(
                     f"{self.__class__.__name__} error in {self.message_id} - source story not found"
@@ -1948,18 +1950,18 @@ class EAItemMove(ElementAction):
         """
         Merge into the :class:`RunningOrder` object provided.
         """
-        story, story_index = find_child(parent=ro.base_tag, child_tag='story', id=self.story.id)
+        story, story_index = find_child_by_id(parent=ro.base_tag, child_tag='story', id=self.story.id)
         if story is None:
             raise MosMergeError(
                 f"{self.__class__.__name__} error in {self.message_id} - story not found"
             )
-        target_item, target_item_index = find_child(parent=story, child_tag='item', id=self.item.id)
+        target_item, target_item_index = find_child_by_id(parent=story, child_tag='item', id=self.item.id)
         if target_item is None:
             raise MosMergeError(
                 f"{self.__class__.__name__} error in {self.message_id} - target item not found"
             )
         for i, source_item in enumerate(self.items, start=target_item_index):
-            item, item_index = find_child(parent=story, child_tag='item', id=source_item.id)
+            item, item_index = find_child_by_id(parent=story, child_tag='item', id=source_item.id)
             if item is None:
                 raise MosMergeError(
                     f"{self.__class__.__name__} error in {self.message_id} - source item not found"
